@@ -100,6 +100,54 @@ fn classify(e: &Expr) -> (bool, Vec<&'static str>) {
     (e.count_ops() >= 2 && derived_or_prefixed, c)
 }
 
+/// `(x u^a)^b` with a*b around the 32-bit boundary (x in {1, -1, 0, 2}; u an unprefixed base unit): when the product
+/// fits an i32 the result has that power of u, otherwise the power cannot be represented and the result must be
+/// an error — never a value with some other unit.
+fn power_boundary() -> impl Strategy<Value = QCase> {
+    const BASE: [(&str, usize); 7] = [("m", 1), ("s", 2), ("A", 3), ("K", 4), ("mol", 5), ("cd", 6), ("B", 7)];
+    let big = || prop_oneof![Just(2i64), Just(3), Just(255), Just(256), Just(32767), Just(32768), Just(46340), Just(46341), Just(65535), Just(65536), Just(65537), Just(1 << 20), Just((1 << 31) - 1), Just(-32768), Just(-65536), Just(-46341)];
+    (0usize..7, big(), big(), prop_oneof![Just("1"), Just("-1"), Just("0"), Just("1.0")], prop::option::weighted(0.3, prop_oneof![Just(" + 1 s"), Just(" * 1 m"), Just(" to kg")]))
+        .prop_map(|(ui, a, b, x, tail)| {
+            let (u, di) = BASE[ui];
+            let query = format!("({} {}^{})^{}{}", x, u, a, b, tail.unwrap_or(""));
+            let p = a * b;
+            let fits = p >= i32::MIN as i64 && p <= i32::MAX as i64;
+            if p == i32::MIN as i64 {
+                // a power of exactly -2^31 is representable but cannot be displayed (Display negates it): the
+                // open finding `unit-power-i32-overflow` recorded under C11 (DESIGN 5, #19) — excluded here by construction
+                return QCase { query, expect: Expect::Error { why: "skip".into() }, nontrivial: false, classes: vec!["skipped".into()] };
+            }
+            // value: x^b for x in {1, -1, 0}: 0^negative is an error, (-1)^odd = -1
+            let value: Option<i64> = match x {
+                "0" => if b < 0 { None } else { Some(0) },
+                "-1" => Some(if b % 2 == 0 { 1 } else { -1 }),
+                _ => Some(1),
+            };
+            let expect = match (fits, value, tail) {
+                (true, Some(v), None) => {
+                    let mut dim = [0i32; 8];
+                    dim[di] = p as i32;
+                    Expect::Quantity { si: v.to_string(), dim }
+                }
+                // anything combined with the tail, an unrepresentable power, or 0^negative: an error
+                // (`+ 1 s` / `to kg` mismatch in dimension; `* 1 m` is only generated as an error probe when the power overflows)
+                (false, _, _) | (_, None, _) => Expect::Error { why: "power not representable or division by zero".into() },
+                (true, Some(_), Some(t)) if t != " * 1 m" => Expect::Error { why: "dimension mismatch".into() },
+                (true, Some(v), Some(_)) => {
+                    let mut dim = [0i32; 8];
+                    dim[di] = p as i32;
+                    dim[1] += 1;
+                    if dim[di] == i32::MAX && di == 1 {
+                        return QCase { query, expect: Expect::Error { why: "skip".into() }, nontrivial: false, classes: vec!["skipped".into()] };
+                    }
+                    Expect::Quantity { si: v.to_string(), dim }
+                }
+            };
+            QCase { query, expect, nontrivial: true, classes: vec![if fits { "power-within-32-bits" } else { "power-beyond-32-bits" }.to_string()] }
+        })
+        .prop_filter("skip markers", |c| c.nontrivial)
+}
+
 fn make_case(e: &Expr) -> Option<QCase> {
     let (nt, mut classes) = classify(e);
     let mut c = case_from_expr(e, &ObsEnv, nt, vec![])?;
@@ -136,6 +184,7 @@ pub fn run_check(ctx: &Ctx) {
     let cases: Vec<QCase> = corpus.into_iter().map(|c| c.1).collect();
     ctx.run_list("corpus", &cases, |c| judge(shared_db(), c), |c| to_json(c));
     let n = ctx.tier.pick(100_000u64, 2_000_000);
+    ctx.run_gen("power-boundary", power_boundary, 3_000, |c| judge(shared_db(), c), |c| to_json(c));
     ctx.run_gen("generated", tree, n, check, |e| make_case(e).map(|c| to_json(&c)).unwrap_or(Value::Null));
 }
 
